@@ -3,7 +3,7 @@
 // paths point at verif/vsync and verif/vatomic, and every function of the library
 // packages (plenc, plenccodec, null) gets a verifsched.Yield("<name>") as its first
 // statement - a scheduling point at method granularity that is inert unless a
-// scenario switches it on. All edits stay on their original line, so positions in
+// scenario switches it on - and every loop body a verifsched.Tick() (work counter). All edits stay on their original line, so positions in
 // stack traces still match the repository. Also writes overlay.json for `go build -overlay`.
 package main
 
@@ -93,6 +93,21 @@ func main() {
 				at := fset.Position(fd.Body.Lbrace).Offset + 1
 				edits = append(edits, edit{at, at, fmt.Sprintf("verifsched.Yield(%q);", f.Name.Name+"."+name)})
 				ny++
+				// every loop iteration counts as one unit of work (C04's "terminates promptly" oracle)
+				ast.Inspect(fd.Body, func(n ast.Node) bool {
+					var body *ast.BlockStmt
+					switch l := n.(type) {
+					case *ast.ForStmt:
+						body = l.Body
+					case *ast.RangeStmt:
+						body = l.Body
+					}
+					if body != nil {
+						at := fset.Position(body.Lbrace).Offset + 1
+						edits = append(edits, edit{at, at, "verifsched.Tick();"})
+					}
+					return true
+				})
 			}
 			if ny > 0 {
 				at := fset.Position(f.Name.End()).Offset
